@@ -180,14 +180,16 @@ def ttext(tokens):
 
 def nested(rng, depth, leafdepth_kind="mixed"):
     """a document whose deepest value is enclosed by exactly `depth` containers; empty containers and
-    member values / elements at the boundary"""
-    if depth == 0:
-        return rng.choice([b"1", b'"x"', b"null", b"[]", b"{}", b"[ ]", b"{ }", b"-2.5e3"])
-    inner = nested(rng, depth - 1)
-    pad_before = rng.choice([b"", b"1,", b'"s", ', b"[],", b"{},"])
-    pad_after = rng.choice([b"", b",2", b", []", b",{}"])
-    if rng.chance(0.5):
-        return b"[" + ws(rng) + pad_before + inner + pad_after + ws(rng) + b"]"
-    kb = rng.choice([b'"a":0,', b"", b'"q":[],'])
-    ka = rng.choice([b"", b',"z":null', b',"y":{}'])
-    return b"{" + ws(rng) + kb + b'"k"' + ws(rng) + b":" + ws(rng) + inner + ka + ws(rng) + b"}"
+    member values / elements at the boundary (built inside out, iteratively: depth may be in the thousands)"""
+    doc = rng.choice([b"1", b'"x"', b"null", b"[]", b"{}", b"[ ]", b"{ }", b"-2.5e3"])
+    for _ in range(depth):
+        inner = doc
+        pad_before = rng.choice([b"", b"1,", b'"s", ', b"[],", b"{},"])
+        pad_after = rng.choice([b"", b",2", b", []", b",{}"])
+        if rng.chance(0.5):
+            doc = b"[" + ws(rng) + pad_before + inner + pad_after + ws(rng) + b"]"
+        else:
+            kb = rng.choice([b'"a":0,', b"", b'"q":[],'])
+            ka = rng.choice([b"", b',"z":null', b',"y":{}'])
+            doc = b"{" + ws(rng) + kb + b'"k"' + ws(rng) + b":" + ws(rng) + inner + ka + ws(rng) + b"}"
+    return doc
